@@ -247,6 +247,17 @@ impl<'a> SemanticBuilder<'a> {
         }
     }
 
+    /// length of a line in UTF-16 code units, without its line terminator
+    fn line_len_utf16(&self, line: u32) -> u32 {
+        let Some(range) = self.document.get_line_range(line as usize) else {
+            return 0;
+        };
+        let text = self.document.get_text_slice(range);
+        let text = text.strip_suffix('\n').unwrap_or(text);
+        let text = text.strip_suffix('\r').unwrap_or(text);
+        text.chars().map(|c| c.len_utf16() as u32).sum()
+    }
+
     fn push_data(&mut self, range: TextRange, typ: u32, modifiers: u32) {
         let position = range.start();
         if !self.seen_positions.insert(position) {
@@ -267,35 +278,47 @@ impl<'a> SemanticBuilder<'a> {
         let end_col = end_col as u32;
 
         if !self.multi_line_support && start_line != end_line {
+            // split into one token per line; every piece ends at the end of its own line
             let mut multi_line_data = vec![];
-            multi_line_data.push(BasicSemanticTokenData {
-                line: start_line,
-                col: start_col,
-                length: 9999,
-                typ,
-                modifiers,
-            });
-
-            for i in start_line + 1..end_line {
+            let first_line_len = self.line_len_utf16(start_line);
+            if first_line_len > start_col {
                 multi_line_data.push(BasicSemanticTokenData {
-                    line: i,
-                    col: 0,
-                    length: 9999,
+                    line: start_line,
+                    col: start_col,
+                    length: first_line_len - start_col,
                     typ,
                     modifiers,
                 });
             }
 
-            multi_line_data.push(BasicSemanticTokenData {
-                line: end_line,
-                col: 0,
-                length: end_col,
-                typ,
-                modifiers,
-            });
+            for i in start_line + 1..end_line {
+                let line_len = self.line_len_utf16(i);
+                if line_len == 0 {
+                    continue;
+                }
+                multi_line_data.push(BasicSemanticTokenData {
+                    line: i,
+                    col: 0,
+                    length: line_len,
+                    typ,
+                    modifiers,
+                });
+            }
 
-            self.data
-                .push(SemanticTokenData::MultiLine(multi_line_data));
+            if end_col > 0 {
+                multi_line_data.push(BasicSemanticTokenData {
+                    line: end_line,
+                    col: 0,
+                    length: end_col,
+                    typ,
+                    modifiers,
+                });
+            }
+
+            if !multi_line_data.is_empty() {
+                self.data
+                    .push(SemanticTokenData::MultiLine(multi_line_data));
+            }
         } else {
             self.data
                 .push(SemanticTokenData::Basic(BasicSemanticTokenData {
